@@ -66,6 +66,24 @@ def names_h():
         d(A + '__ctor__integral_type(a,x)', '((a)->v = (x))')
         d(A + '__op_bool__0(a)', p + '_load(a, VF_MO_SEQ_CST)')
         d(A + '__dtor(a)', '((void)0)')
+    for N in ('unsigned_short', 'short', 'unsigned_char', 'signed_char', 'unsigned_int', 'long', 'unsigned_long'):
+        A = 'std_atomic_' + N
+        p = 'vf_a_' + N
+        d(A, 'vf_atomic_' + N)
+        d(A + '__load__1', p + '_load')
+        d(A + '__store__2', p + '_store')
+        d(A + '__exchange__2', p + '_exchange')
+        d(A + '__op_conv__0(a)', p + '_load(a, VF_MO_SEQ_CST)')
+        d(A + '__op_assign__1', p + '_assign')
+        d(A + '__ctor(a)', '((void)0)')
+        d(A + '__ctor__integral_type(a,x)', '((a)->v = (x))')
+        d(A + '__dtor(a)', '((void)0)')
+        d(A + '__op_inc__0(a)', '(%s_fetch_add(a, 1, VF_MO_SEQ_CST) + 1)' % p)
+        d(A + '__op_dec__0(a)', '(%s_fetch_add(a, -1, VF_MO_SEQ_CST) - 1)' % p)
+        d(A + '__post_op_inc__0(a)', '%s_fetch_add(a, 1, VF_MO_SEQ_CST)' % p)
+        d(A + '__post_op_dec__0(a)', '%s_fetch_add(a, -1, VF_MO_SEQ_CST)' % p)
+        d(A + '__fetch_add__2(a,x,mo)', '%s_fetch_add(a, (long)(x), mo)' % p)
+        d(A + '__fetch_sub__2(a,x,mo)', '%s_fetch_add(a, -(long)(x), mo)' % p)
     d('std_atomic_int__op_inc__0', 'vf_aint_preinc')
     d('std_atomic_int__op_dec__0', 'vf_aint_predec')
     d('std_atomic_int__post_op_inc__0', 'vf_aint_postinc')
